@@ -186,7 +186,10 @@ MAL_PATHS = ["", "/", "//", "///", "abc", "abc/", "x/abc", "/abc\n", "/abc/\n", 
 
 POOL = [("GET", "/abc"), ("GET", "/abc/:x"), ("GET", "/abc/abc"), ("GET", "/abc/:r*"), ("GET", "/:x/:y?"), ("POST", "/abc/:x"),
         ("GET", "/a.c/:r+"), ("PUT", "/:x"), ("DELETE", "/abc/:x/:x"), ("GET", "/:r*"), ("PATCH", "/abc"), ("get", "/abc"),
-        ("GET", "/:a?/:b?"), ("POST", "/:a*/b")]
+        ("GET", "/:a?/:b?"), ("POST", "/:a*/b"),
+        # siblings: the same literals and the same parameter name, only the quantifier differs (and the method)
+        ("PUT", "/abc/:x+"), ("DELETE", "/abc/:x*"), ("POST", "/abc/:x?"), ("GET", "/abc/:x+")]
+SIBLINGS = {1, 5, 14, 15, 16, 17}          # indices in POOL of the routes spelled /abc/:x<quantifier>
 QPATHS = ["", "/", "/abc", "/abc/", "/abc/abc", "/abc/x", "/abc/x/", "/abc/x/y", "/abcdef", "/abc/abcdef", "/aXc/v", "/a.c/v",
           "/a.c/", "/x", "/x/b", "/abc//", "abc", "/abc/x/x"]
 QMETHODS = ["GET", "POST", "PUT", "DELETE", "PATCH", "HEAD", "get"]
@@ -665,8 +668,8 @@ def run(run):
     for tb in tables:
         rt, box, reg = build_router(tb)
         qs = [(m, q, False) for m in QMETHODS for q in QPATHS]
-        if not run.thorough():
-            qs = r.sample(qs, 30)
+        if not run.thorough() and not (len(tb) >= 2 and all(i in SIBLINGS for (_, _, i) in tb)):
+            qs = r.sample(qs, 30)       # tables of sibling routes (same skeleton, different quantifier) are always asked everything
         qs += [("GET", "/abc/x", True), ("HEAD", "/abc", True)]
         qs += [(m, q, False) for m in ("GET", "POST") for q in r.sample(QPATHS_PCT, 2)]
         qs += [(m, q, False) for m in ("GET", "get", "Get") for q in r.sample(IDENT_QPATHS, 2)]
